@@ -315,7 +315,9 @@ def _reset_process_globals():
 
     cache_engine.cold_start()
     for o in (P.auto_optimize, P.auto_hq_optimize):
-        o._hyperoptimizers_by_thread.clear()
+        d = getattr(o, "_hyperoptimizers_by_thread", None)  # (private: absent if the library keeps this state elsewhere;
+        if isinstance(d, dict):  # cold_start above has already put the preset objects back into their import-time state)
+            d.clear()
 
 
 def _check_answer(via, ans, q):
